@@ -90,6 +90,8 @@ pub struct RunOutcome {
     /// decoded requests; Err if the bytes do not decode
     pub requests: Result<BTreeMap<u32, CallRequest>, String>,
     pub flags: (bool, bool, bool),
+    /// events recorded by the guarded hooks in /repo during this run (stream operations)
+    pub events: Vec<air::verif_hooks::Event>,
 }
 
 pub fn encode_call_results(m: &BTreeMap<String, (i32, String)>) -> Vec<u8> {
@@ -189,6 +191,7 @@ pub fn invoke(input: &RunInput) -> RunOutcome {
     };
     install_panic_hook();
     LAST_PANIC.with(|p| p.borrow_mut().take());
+    let _ = air::verif_hooks::drain();
     let (air, prev, cur) = (input.air.clone(), input.prev.clone(), input.cur.clone());
     let res = std::panic::catch_unwind(std::panic::AssertUnwindSafe(move || air::execute_air(air, prev, cur, params, call_results)));
     let o = match res {
@@ -203,6 +206,7 @@ pub fn invoke(input: &RunInput) -> RunOutcome {
                 call_requests_raw: vec![],
                 requests: Ok(BTreeMap::new()),
                 flags: (false, false, false),
+                events: air::verif_hooks::drain(),
             };
         }
     };
@@ -215,6 +219,7 @@ pub fn invoke(input: &RunInput) -> RunOutcome {
         call_requests_raw: o.call_requests,
         requests,
         flags: (o.air_size_limit_exceeded, o.particle_size_limit_exceeded, o.call_result_size_limit_exceeded),
+        events: air::verif_hooks::drain(),
     }
 }
 
